@@ -132,6 +132,15 @@ def isinstance_facts(ck, m, facts, var):
     return out
 
 
+def const_of(m, e):
+    """Value of a constant expression, following module-level names bound to constants."""
+    hops = 0
+    while isinstance(e, ast.Name) and e.id in m.assigns and hops < 4:
+        e = m.assigns[e.id]
+        hops += 1
+    return e.value if isinstance(e, ast.Constant) else None
+
+
 def returns(fi):
     return [n for n in fi.cfg.stmt_nodes(lambda n: n.kind == "stmt" and isinstance(n.ast, ast.Return))]
 
@@ -186,8 +195,9 @@ def rule_json(ck):
         good = False
         for rp in reps:
             a, b = rp.args
-            if isinstance(a, ast.Constant) and a.value == "</" and isinstance(b, ast.Constant) and isinstance(b.value, str):
-                good = "</" not in b.value and b.value.replace("\\/", "/") == "</"
+            av, bv = const_of(m, a), const_of(m, b)
+            if av == "</" and isinstance(bv, str):
+                good = "</" not in bv and bv.replace("\\/", "/") == "</"
         if not good and isinstance(r.ast.value, ast.Name) and base_ok and absent_at(f.cfg, r, ("</", "<", "/"), {r.ast.value.id}):
             good = True  # fast path: nothing to replace
         ck.ob(rid, f, r.ast, good, "the result passes through .replace('</', R) with R free of '</' and JSON-equivalent ('<\\/'), or is returned where '</' is known to be absent")
@@ -368,14 +378,14 @@ def rule_qs(ck):
     dec = [(n, c) for n, c in f.cfg.find(lambda x: isinstance(x, ast.Call) and isinstance(x.func, ast.Attribute) and x.func.attr == "decode" and q.dotted(x.func.value) == qs)]
     ck.floor(rid, len(dec), 1, "decode of the bytes argument")
     for n, c in dec:
-        cod = c.args[0].value if c.args and isinstance(c.args[0], ast.Constant) else None
+        cod = const_of(m, c.args[0]) if c.args else None
         codecs["decode"] = cod
         ck.ob(rid, f, c, any(pol and "bytes" in ts for ts, pol in isinstance_facts(ck, m, facts[n.id], qs)), "bytes input is decoded (only under isinstance(qs, bytes))")
     pq = [c for c in q.calls(f.node) if qualify(m, c.func) == "urllib.parse.parse_qs"]
     ck.floor(rid, len(pq), 1, "parse_qs call")
     for c in pq:
         e = q.kwarg(c, "encoding") or (c.args[3] if len(c.args) > 3 else None)
-        codecs["parse"] = e.value if isinstance(e, ast.Constant) else None
+        codecs["parse"] = const_of(m, e) if e is not None else None
         ck.ob(rid, f, c, bool(c.args) and q.dotted(c.args[0]) == qs, "the (decoded) query string is parsed")
         for i, name in ((1, "keep_blank_values"), (2, "strict_parsing")):
             a = q.kwarg(c, name) or (c.args[i] if len(c.args) > i else None)
@@ -384,7 +394,7 @@ def rule_qs(ck):
     enc = [c for c in q.calls(f.node, local=False) if isinstance(c.func, ast.Attribute) and c.func.attr == "encode"]
     ck.floor(rid, len(enc), 1, "re-encoding of values")
     for c in enc:
-        codecs["encode"] = c.args[0].value if c.args and isinstance(c.args[0], ast.Constant) else None
+        codecs["encode"] = const_of(m, c.args[0]) if c.args else None
     vals = {k: (v or "").lower() for k, v in codecs.items()}
     ck.ob(rid, f, f.node, len(vals) == 3 and all(v in LATIN1 for v in vals.values()), "decode, percent-decoding and re-encode all use latin-1, the codec that maps every byte to one code point and back (found %s)" % codecs, construct="codecs %s" % sorted(codecs.items()))
     # every value of every key is re-encoded and stored
